@@ -29,7 +29,60 @@ fn grammar_spellings() -> Option<Vec<String>> {
     Some(v)
 }
 
+/// Through the real driver: every condition in three placements (target behind / ahead / the LOOP family on its own
+/// line), taken and not taken, as a whole program judged by C08's reference-interpreter comparison (replica and binary).
+fn driver_cross_check(rep: &Report) {
+    use crate::prog::{Item, Program};
+    let mut jobs: Vec<(Jcc, usize, u16, u16)> = Vec::new(); // (condition, placement, flags, cx)
+    for j in ALL_JCC {
+        if j == Jcc::Jmp {
+            jobs.push((j, 0, 0, 5));
+            jobs.push((j, 1, 0, 5));
+            continue;
+        }
+        let loopfam = matches!(j, Jcc::Loop | Jcc::Loope | Jcc::Loopne);
+        for flags in [0u16, ZF, CF, SF, OF, SF | OF, ZF | CF, PF, 0x0ED5 & !TF] {
+            for cx in [0u16, 1, 2, 4] {
+                if !loopfam && j != Jcc::Jcxz && cx != 4 {
+                    continue;
+                }
+                jobs.push((j, 0, flags, cx));
+                jobs.push((j, 1, flags, cx));
+                // self-targeting: only where it terminates by itself (CX counts down); CX=0 would take 65536 rounds
+                if loopfam && cx != 0 {
+                    jobs.push((j, 2, flags, cx));
+                }
+            }
+        }
+    }
+    let n = jobs.len();
+    par_for(n, 2, |i| {
+        let (j, placement, flags, cx) = jobs[i];
+        let ins = |x: Ins| Item::Ins(x);
+        let mov16 = |r: R16, v: u16| Item::Ins(Ins::Mov(Loc::R16(r), Src::Imm(v)));
+        let mut items = vec![Item::Label("start".into()), mov16(R16::AX, flags), ins(Ins::Push(Loc::R16(R16::AX))), ins(Ins::Simple("popf")), mov16(R16::CX, cx), mov16(R16::BX, 0)];
+        match placement {
+            0 => {
+                // target behind the jump
+                items.extend(vec![ins(Ins::J(Jcc::Jmp, "over".into())), Item::Label("back".into()), mov16(R16::BX, 1), ins(Ins::J(Jcc::Jmp, "done".into())), Item::Label("over".into()), ins(Ins::J(j, "back".into())), mov16(R16::BX, 2), Item::Label("done".into())]);
+            }
+            1 => {
+                items.extend(vec![ins(Ins::J(j, "fwd".into())), mov16(R16::BX, 2), ins(Ins::J(Jcc::Jmp, "done".into())), Item::Label("fwd".into()), mov16(R16::BX, 1), Item::Label("done".into())]);
+            }
+            _ => {
+                items.extend(vec![Item::Label("here".into()), ins(Ins::J(j, "here".into())), mov16(R16::BX, 3)]);
+            }
+        }
+        items.push(mov16(R16::SI, 77));
+        let p = Program { data: vec![], items };
+        let text = p.render_plain().text;
+        crate::c08::check_program_sig(rep, &p, &text, Some(format!("jcc-driver|{}|{}|{:04x}|{}", j.name(), placement, flags, cx)), true, ["jump-target-behind", "jump-target-ahead", "jump-targets-itself"][placement], 300, 2000, &format!("jcc-driver:{}", j.name()));
+    });
+    rep.count("conditions x placements x flag/CX cases run as programs through the real driver", n as u64);
+}
+
 pub fn run(rep: &Report) {
+    driver_cross_check(rep);
     let mut spellings: Vec<String> = Vec::new();
     for s in DOC_SPELLINGS.split_whitespace() {
         spellings.push(s.to_string());
@@ -237,4 +290,4 @@ pub fn run(rep: &Report) {
     rep.sample("`loopne L` with CX=0x0001, ZF=0 -> CX=0x0000, not taken".to_string());
 }
 
-pub const RULE: &str = "every jump/loop spelling of syntax.md in lower and upper case (cross-checked against the terminals scraped from the grammar) is assembled by the real Preprocessor in three placements (target behind the jump, the jump targeting itself, target ahead) and its emitted line executed at its own index under all 2^16 flag words; JCXZ/LOOP/LOOPE/LOOPNE additionally under all 2^16 CX values x ZF x two settings of the other flags. Oracle: Intel predicate table; nothing but CX (LOOP family) may change; complements and synonyms compared observed-vs-observed. Distinct = (condition, CF/ZF/SF/OF/PF combination).";
+pub const RULE: &str = "every jump/loop spelling of syntax.md in lower and upper case (cross-checked against the terminals scraped from the grammar) is assembled by the real Preprocessor in three placements (target behind the jump, the jump targeting itself, target ahead) and its emitted line executed at its own index under all 2^16 flag words; JCXZ/LOOP/LOOPE/LOOPNE additionally under all 2^16 CX values x ZF x two settings of the other flags. Every condition is also run as a whole program through the real driver (target behind, ahead, LOOP family on its own line; taken and not taken) and judged by the reference interpreter over the program (C08's comparison). Oracle: Intel predicate table; nothing but CX (LOOP family) may change; complements and synonyms compared observed-vs-observed. Distinct = (condition, CF/ZF/SF/OF/PF combination).";
